@@ -314,8 +314,8 @@ def observe(m: AModel) -> Observed:
     if not sdk.ok:
         e = sdk.error or ""
         if e.startswith("import:"):
-            mod = re.search(r"aasv_\w+\.(\w+)", e)
-            what = "import:" + (mod.group(1) if mod else "?") + ":" + e.split(":")[2].strip()
+            mods = re.findall(r"aasv_\w+/(\w+)\.py", e)
+            what = "import:" + (mods[-1] if mods else "?") + ":" + e.split(":")[2].strip()
         elif e.startswith("generation:"):
             r = sdk.result
             what = "generation:" + (r.exception if r is not None and r.exception else f"rc={r.rc if r is not None else '?'}")
@@ -800,7 +800,7 @@ def random_model(rng: Any, violate: float) -> AModel:
     sets = [c for c in consts if c.kind != "P"]
     for c in sets:
         if rng.random() < 0.5:
-            cands = [s for s in sets if s.kind == c.kind and s.typ == c.typ]
+            cands = [s for s in sets if s.kind == c.kind and s.typ == c.typ and (s is not c or rng.random() < 0.25)]
             for s in rng.sample(cands, min(len(cands), rng.randint(1, 3))):
                 c.supers.append(s.name)
     for _ in range(4):  # close under the declared edges (a fixed point exists; cycles just equalise)
@@ -948,8 +948,12 @@ def flush(ctx: Ctx, batch: List[Tuple[str, Any]]) -> None:
     answers = ctx.model([b[0] for b in batch])
     for (line, (stream, inp, impl_line)), ans in zip(batch, answers):
         ctx.traces_validated += 1
-        if stream == "sdk" and ans.startswith("crash:"):
-            ans = "crash"
+        if stream.startswith("sdk") and ans.startswith("crash:"):
+            # A crash site of the front end (owned by C01): when it is repaired the model is *rejected*;
+            # both mean "not accepted", which is all C30 needs to know.
+            ctx.hit("model-crash-site:" + ans[6:])
+            if impl_line == "crash" or impl_line.startswith("rejected:"):
+                continue
         if ans != impl_line:
             ctx.disagree(stream, inp if isinstance(inp, dict) else model_to_json(inp), impl_line, ans)
     batch.clear()
@@ -960,13 +964,13 @@ def models(ctx: Ctx) -> Iterator[Tuple[AModel, str]]:
         if "enums" in c:
             yield model_from_json(c), "corpus"
     yield from enumerated(ctx)
-    for _ in range(ctx.n(250, 6000)):
+    for _ in range(ctx.n(170, 4000)):
         yield random_model(ctx.rng, violate=0.35), "random"
     # the shared platform generator: whole meta-models (classes, invariants, …) around the constants
     from harness import mm
 
     feats = mm.Features(non_ascii_values=True, control_char_values=True, huge_ints=True)
-    for _ in range(ctx.n(12, 250)):
+    for _ in range(ctx.n(8, 150)):
         whole = mm.random_mm(ctx.rng, size=ctx.rng.randint(1, 4), features=feats)
         yield (whole, from_mm(whole)), "random_mm"  # type: ignore[misc]
 
@@ -1096,38 +1100,71 @@ def _lean_str(s: str) -> str:
     return '"' + s.replace("\\", "\\\\").replace('"', '\\"') + '"'
 
 
+class _Rename(ast.NodeTransformer):
+    def __init__(self, mapping: Dict[str, str]) -> None:
+        self.mapping = mapping
+
+    def visit_Name(self, node: ast.Name) -> ast.AST:
+        return ast.copy_location(ast.Name(id=self.mapping.get(node.id, node.id), ctx=node.ctx), node)
+
+
+def _norm(node: ast.AST, mapping: Dict[str, str]) -> str:
+    """Source text of ``node`` with the local variables replaced by role names (a renamed local is no change)."""
+    import copy
+
+    return ast.unparse(_Rename(mapping).visit(copy.deepcopy(node)))
+
+
 def _resolver_skeleton(mod: ast.Module, name: str) -> Tuple[List[str], str, List[str]]:
     fn = extract._func(mod, name)
     loops = [n for n in fn.body if isinstance(n, ast.For)]
     if len(loops) != 1:
         raise ExtractError(f"{name}: expected exactly one top-level for loop, found {len(loops)}")
     loop = loops[0]
-    if ast.unparse(loop.iter) != "constant_set.subsets":
+    if ast.unparse(loop.iter) != "constant_set.subsets" or not isinstance(loop.target, ast.Name):
         raise ExtractError(f"{name}: the loop does not iterate over constant_set.subsets")
+    mapping: Dict[str, str] = {loop.target.id: "PLACEHOLDER"}
+    # the looked-up subset
+    for st in loop.body:
+        if isinstance(st, ast.Assign) and len(st.targets) == 1 and isinstance(st.targets[0], ast.Name) and isinstance(st.value, ast.Call):
+            if _norm(st.value, mapping) == "symbol_table.constants_by_name.get(PLACEHOLDER.name, None)":
+                mapping[st.targets[0].id] = "SUBSET"
+    if "SUBSET" not in mapping.values():
+        raise ExtractError(f"{name}: the look-up symbol_table.constants_by_name.get(<placeholder>.name, None) was not found")
+    tail = fn.body[fn.body.index(loop) + 1 :]
+    if len(tail) != 2 or not isinstance(tail[0], ast.If) or not isinstance(tail[1], ast.Return) or not isinstance(tail[0].body[0], ast.Return):
+        raise ExtractError(f"{name}: unexpected statements after the loop")
+    test = tail[0].test
+    if not (isinstance(test, ast.Compare) and isinstance(test.left, ast.Call) and ast.unparse(test.left.func) == "len" and isinstance(test.left.args[0], ast.Name)):
+        raise ExtractError(f"{name}: the final test is not `len(<errors>) > 0`")
+    mapping[test.left.args[0].id] = "ERRORS"
+    last = tail[1].value
+    if not (isinstance(last, ast.Tuple) and isinstance(last.elts[0], ast.Name)):
+        raise ExtractError(f"{name}: the final return is not `return <subsets>, None`")
+    mapping[last.elts[0].id] = "SUBSETS"
     guards: List[str] = []
     inner: Optional[str] = None
     for st in loop.body:
         if isinstance(st, ast.If):
-            appends = any(isinstance(n, ast.Call) and ast.unparse(n.func) == "errors.append" for n in ast.walk(st))
+            appends = any(isinstance(n, ast.Call) and _norm(n.func, mapping) == "ERRORS.append" for n in ast.walk(st))
             ends = isinstance(st.body[-1], ast.Continue)
             if not (appends and ends and not st.orelse):
                 raise ExtractError(f"{name}: a guard does not append an error and continue: {ast.unparse(st.test)}")
-            guards.append(ast.unparse(st.test))
+            guards.append(_norm(st.test, mapping))
         elif isinstance(st, ast.For):
-            if ast.unparse(st.iter) != "maybe_subset.literals":
-                raise ExtractError(f"{name}: the inner loop does not iterate over maybe_subset.literals")
+            if _norm(st.iter, mapping) != "SUBSET.literals" or not isinstance(st.target, ast.Name):
+                raise ExtractError(f"{name}: the inner loop does not iterate over the literals of the subset")
+            inner_map = dict(mapping)
+            inner_map[st.target.id] = "LITERAL"
             ifs = [n for n in st.body if isinstance(n, ast.If)]
-            if len(ifs) != 1 or not any(isinstance(n, ast.Call) and ast.unparse(n.func) == "errors.append" for n in ast.walk(ifs[0])):
+            if len(ifs) != 1 or not any(isinstance(n, ast.Call) and _norm(n.func, mapping) == "ERRORS.append" for n in ast.walk(ifs[0])):
                 raise ExtractError(f"{name}: the inner loop has no single error-appending test")
-            inner = ast.unparse(ifs[0].test)
+            inner = _norm(ifs[0].test, inner_map)
     if inner is None:
         raise ExtractError(f"{name}: the containment loop was not found")
-    if ast.unparse(loop.body[-1]) != "subsets.append(maybe_subset)":
-        raise ExtractError(f"{name}: the loop does not end with subsets.append(maybe_subset)")
-    tail = fn.body[fn.body.index(loop) + 1 :]
-    if len(tail) != 2 or not isinstance(tail[0], ast.If) or not isinstance(tail[1], ast.Return) or not isinstance(tail[0].body[0], ast.Return):
-        raise ExtractError(f"{name}: unexpected statements after the loop")
-    final = [ast.unparse(tail[0].test), ast.unparse(tail[0].body[0].value), ast.unparse(tail[1].value)]  # type: ignore[arg-type]
+    if _norm(loop.body[-1], mapping) != "SUBSETS.append(SUBSET)":
+        raise ExtractError(f"{name}: the loop does not end with <subsets>.append(<subset>)")
+    final = [_norm(tail[0].test, mapping), _norm(tail[0].body[0].value, mapping), _norm(tail[1].value, mapping)]  # type: ignore[arg-type]
     return guards, inner, final
 
 
@@ -1148,22 +1185,27 @@ def gen_SdkConst(repo: pathlib.Path) -> str:
     smod = extract._parse(repo, "aas_core_codegen/python/lib/_generate_stringification.py")
     fn = extract._func(smod, "_generate_enum_from_string")
     loops = [n for n in ast.walk(fn) if isinstance(n, ast.For)]
-    if len(loops) != 1 or ast.unparse(loops[0].iter) != "enumeration.literals":
+    if len(loops) != 1 or ast.unparse(loops[0].iter) != "enumeration.literals" or not isinstance(loops[0].target, ast.Name):
         raise ExtractError("_generate_enum_from_string: expected one loop over enumeration.literals")
-    entry = [ast.unparse(v.value) for n in ast.walk(loops[0]) if isinstance(n, ast.JoinedStr) for v in n.values if isinstance(v, ast.FormattedValue)]
+    lmap = {loops[0].target.id: "LITERAL"}
+    entry = [_norm(v.value, lmap) for n in ast.walk(loops[0]) if isinstance(n, ast.JoinedStr) for v in n.values if isinstance(v, ast.FormattedValue)]
+    entry = [x for x in entry if "LITERAL" in x]
+    if len(entry) != 1:
+        raise ExtractError(f"_generate_enum_from_string: expected one formatted value over the literal in a map entry, found {entry}")
     tails = [c.value for n in ast.walk(fn) if isinstance(n, ast.JoinedStr) for c in n.values if isinstance(c, ast.Constant) and isinstance(c.value, str) and c.value.startswith(".get(")]
     if len(tails) != 1:
         raise ExtractError("_generate_enum_from_string: the lookup `<map>.get(…)` of the from-string function was not found")
     lookup = tails[0].split("\n")[0].strip()
     tmod = extract._parse(repo, "aas_core_codegen/python/lib/_generate_types.py")
     efn = extract._func(tmod, "_generate_enum")
-    eloops = [n for n in ast.walk(efn) if isinstance(n, ast.For) and ast.unparse(n.iter) == "enum.literals"]
+    eloops = [n for n in ast.walk(efn) if isinstance(n, ast.For) and ast.unparse(n.iter) == "enum.literals" and isinstance(n.target, ast.Name)]
     if len(eloops) != 1:
         raise ExtractError("_generate_enum: expected one loop over enum.literals")
+    emap = {eloops[0].target.id: "LITERAL"}  # type: ignore[union-attr]
     lines = [n for n in ast.walk(eloops[0]) if isinstance(n, ast.JoinedStr) and any(isinstance(c, ast.Constant) and c.value == " = " for c in n.values)]
     if len(lines) != 1:
         raise ExtractError("_generate_enum: the member line `<name> = <value>` was not found")
-    member = [ast.unparse(v.value) for v in lines[0].values if isinstance(v, ast.FormattedValue)]
+    member = [x for x in (_norm(v.value, emap) for v in lines[0].values if isinstance(v, ast.FormattedValue)) if "LITERAL" in x]
     out = [
         "/-! GENERATED by harness/props/c30.py (gen_SdkConst) from aas_core_codegen/intermediate/_translate.py,",
         "python/lib/_generate_constants.py, _generate_stringification.py, _generate_types.py — do not edit. -/",
